@@ -1,5 +1,7 @@
 package graphql
 
+import "sort"
+
 type SchemaConfig struct {
 	Query        *Object
 	Mutation     *Object
@@ -110,7 +112,8 @@ func NewSchema(config SchemaConfig) (Schema, error) {
 	if schema.implementations == nil {
 		schema.implementations = map[string][]*Object{}
 	}
-	for _, ttype := range schema.typeMap {
+	for _, typeName := range sortedTypeNames(schema.typeMap) {
+		ttype := schema.typeMap[typeName]
 		if ttype, ok := ttype.(*Object); ok {
 			for _, iface := range ttype.Interfaces() {
 				impls, ok := schema.implementations[iface.Name()]
@@ -155,7 +158,8 @@ func (gq *Schema) AddImplementation() error {
 	if gq.implementations == nil {
 		gq.implementations = map[string][]*Object{}
 	}
-	for _, ttype := range gq.typeMap {
+	for _, typeName := range sortedTypeNames(gq.typeMap) {
+		ttype := gq.typeMap[typeName]
 		if ttype, ok := ttype.(*Object); ok {
 			for _, iface := range ttype.Interfaces() {
 				impls, ok := gq.implementations[iface.Name()]
@@ -184,6 +188,17 @@ func (gq *Schema) AddImplementation() error {
 	gq.possibleTypeMap = buildPossibleTypeMap(gq)
 
 	return nil
+}
+
+// sortedTypeNames returns the names of a type map in ascending order, so that lists
+// derived from it (an interface's implementers) do not follow map iteration order.
+func sortedTypeNames(typeMap TypeMap) []string {
+	names := make([]string, 0, len(typeMap))
+	for name := range typeMap {
+		names = append(names, name)
+	}
+	sort.Strings(names)
+	return names
 }
 
 // buildPossibleTypeMap computes, for every abstract type of the schema, the set
